@@ -6,7 +6,7 @@
 From Coq Require Import String.
 From PS Require Import Base GFDefs PackDefs StoreDefs MiscDefs StrDefs LangDefs ApiDefs SpecDefs SpecApi.
 From PS Require Import GFProofs MiscProofs PackProofs PackTheorems StoreProofs SeedProofs ApiLemmas RefineProofs ApiTheorems FrameProofs.
-From PS Require Import CTieBase CTieLang CTiePhrase CTieFeat CTieStore CTieApi CTieDecode CTieEncode.
+From PS Require Import CTieBase CTieLang CTiePhrase CTieFeat CTieStore CTieSplit CTieApi CTieDecode CTieEncode.
 From PS.Gen Require Import Consts PrivConsts Langs.
 From PS.Gen Require CFuns CApi.
 Local Open Scope N_scope.
@@ -119,6 +119,72 @@ Section Machine.
       | Some (cevs, b, f, s, c, so, status) => after_ctor st cevs b f s c so status None
       | None => (st, OutFault, [])
       end
+    | OpFree h =>
+      match heap_get (st_heap st) h with
+      | None => (st, OutFault, [])
+      | Some _ => (mkstate (st_deps st) (st_reserved st) (heap_del (st_heap st) h) (st_next st), OutUnit,
+                   evs_of (st_deps st) (CApi.polyseed_free (ptr h)))
+      end
+    | OpFreeNull => (st, OutUnit, evs_of (st_deps st) (CApi.polyseed_free 0))
+    | OpStore h =>
+      match heap_get (st_heap st) h with
+      | None => (st, OutFault, [])
+      | Some d => (st, OutBytes (map Z.to_N (CApi.polyseed_store (zN (d_birthday d)) (zN (d_features d)) (map zN (d_secret d))
+                                              (zN (d_checksum d)) (repeat 0%Z 32))), [])
+      end
+    | OpGetBirthday h =>
+      match heap_get (st_heap st) h with
+      | None => (st, OutFault, [])
+      | Some d => (st, OutNum (Z.to_N (CApi.polyseed_get_birthday (zN (d_birthday d)) (zN (d_features d)) (map zN (d_secret d))
+                                         (zN (d_checksum d)))), [])
+      end
+    | OpGetFeature h mask =>
+      match heap_get (st_heap st) h with
+      | None => (st, OutFault, [])
+      | Some d => (st, OutNum (Z.to_N (CApi.polyseed_get_feature (zN (d_birthday d)) (zN (d_features d)) (map zN (d_secret d))
+                                         (zN (d_checksum d)) (zN mask))), [])
+      end
+    | OpIsEncrypted h =>
+      match heap_get (st_heap st) h with
+      | None => (st, OutFault, [])
+      | Some d => (st, OutNum (Z.to_N (CApi.polyseed_is_encrypted (zN (d_birthday d)) (zN (d_features d)) (map zN (d_secret d))
+                                         (zN (d_checksum d)))), [])
+      end
+    | OpKeygen h coin size =>
+      match heap_get (st_heap st) h with
+      | None => (st, OutFault, [])
+      | Some d =>
+        let '(cevs, key) := CApi.polyseed_keygen (zkdf (st_deps st)) (zN (d_birthday d)) (zN (d_features d)) (map zN (d_secret d))
+                              (zN (d_checksum d)) (zN coin) (zN size) [] in
+        (st, OutBytes (map Z.to_N key), evs_of (st_deps st) cevs)
+      end
+    | OpCrypt h pw =>
+      match heap_get (st_heap st) h with
+      | None => (st, OutFault, [])
+      | Some d =>
+        match CApi.polyseed_crypt fuel sgn (Dz (st_deps st)) (zkdf (st_deps st)) tbl (zN (d_birthday d)) (zN (d_features d))
+                (map zN (d_secret d)) (zN (d_checksum d)) (zs pw) with
+        | Some (cevs, b, f, s, c) =>
+          (mkstate (st_deps st) (st_reserved st) (heap_set (st_heap st) h (undata b f s c)) (st_next st), OutUnit,
+           evs_of (st_deps st) cevs)
+        | None => (st, OutFault, [])
+        end
+      end
+    | OpEncode h li coin =>
+      match heap_get (st_heap st) h, nth_error langs li with
+      | Some d, Some L =>
+        match CApi.polyseed_encode fuel sgn (znfc (st_deps st)) (fun _ i => zs (nth (Z.to_nat i) (l_words L) []))
+                (fun _ => zs (l_separator L)) (fun _ => if l_compose L then 1%Z else 0%Z)
+                (zN (d_birthday d)) (zN (d_features d)) (map zN (d_secret d)) (zN (d_checksum d)) (Z.of_nat li) (zN coin)
+                (repeat 0%Z 544) with
+        | Some (cevs, outbuf, n) => (st, OutStr (bytes_of (CApi.cstr outbuf)) (Z.to_N n), evs_of (st_deps st) cevs)
+        | None => (st, OutFault, [])
+        end
+      | _, _ => (st, OutFault, [])
+      end
+    | OpEnable mask =>
+      let '(r, n) := CFuns.polyseed_enable_features res (zN mask) in
+      (mkstate (st_deps st) (Z.to_N r) (st_heap st) (st_next st), OutNum (Z.to_N n), [])
     | _ => step sgn langs st o
     end.
 
@@ -197,6 +263,73 @@ Section Machine.
     rewrite ES. destruct (status =? 0)%Z; repeat split; assumption || apply Eh.
   Qed.
 
+  Definition live_valid (st : state) (h : N) : Prop :=
+    match heap_get (st_heap st) h with Some d => Valid d | None => True end.
+
+  Theorem cstep_simple st o : (match o with
+      | OpFree h | OpStore h | OpGetBirthday h | OpGetFeature h _ | OpIsEncrypted h => live_valid st h
+      | OpKeygen h coin _ => live_valid st h /\ coin < 2 ^ 32
+      | OpEnable mask => mask < 2 ^ 32
+      | OpFreeNull => True
+      | _ => False end) -> cstep st o = step sgn langs st o.
+  Proof.
+    destruct o; try contradiction; unfold cstep, live_valid; cbv zeta; cbn [step].
+    - (* enable *) intros Hm. rewrite (tie_enable_features (zN (st_reserved st)) mask Hm).
+      destruct (enable_features mask) as [r n]. cbn [fst snd]. rewrite !N2Z.id. reflexivity.
+    - (* store *) destruct (heap_get (st_heap st) h) as [d|]; [|reflexivity]. intros [HC Ek].
+      assert (K : d_checksum d < 2048) by (rewrite Ek; apply spec_checksum_lt).
+      rewrite (tie_store d _ HC K), map_toN_zN. reflexivity.
+    - (* keygen *) destruct (heap_get (st_heap st) h) as [d|]; [|reflexivity]. intros [[HC Ek] Hc].
+      destruct (tie_keygen (st_deps st) d coin size [] HC Hc) as [E Ev]. rewrite E, Ev, map_toN_zN. reflexivity.
+    - (* birthday *) destruct (heap_get (st_heap st) h) as [d|]; [|reflexivity]. intros [HC Ek].
+      rewrite (tie_get_birthday d), N2Z.id; [reflexivity|]. destruct HC as (_&_&_&_&B&_). lia.
+    - (* feature *) destruct (heap_get (st_heap st) h) as [d|]; [|reflexivity]. intros _.
+      rewrite (tie_get_feature d mask), N2Z.id. reflexivity.
+    - (* is_encrypted *) destruct (heap_get (st_heap st) h) as [d|]; [|reflexivity]. intros _.
+      rewrite (tie_is_encrypted_api d). destruct (is_encrypted _); reflexivity.
+    - (* free *) destruct (heap_get (st_heap st) h) as [d|]; [|reflexivity]. intros _. rewrite tie_free. reflexivity.
+    - (* free NULL *) intros _. rewrite tie_free_null. reflexivity.
+  Qed.
+
+  Theorem cstep_crypt st h pw : live_valid st h -> no_nul pw -> (length pw + 2 <= fuel)%nat ->
+    snd (dp_nfkd (st_deps st) pw) = N.of_nat (length (fst (dp_nfkd (st_deps st) pw))) -> snd (dp_nfkd (st_deps st) pw) < 2 ^ 64 ->
+    (forall p n salt sl it kl, bytes_ok (dp_kdf (st_deps st) p n salt sl it kl)) ->
+    cstep st (OpCrypt h pw) = step sgn langs st (OpCrypt h pw).
+  Proof.
+    unfold live_valid, cstep. cbv zeta. destruct (heap_get (st_heap st) h) as [d|] eqn:Hg; [|intros; cbn [step]; rewrite Hg; reflexivity].
+    intros [HC _] Hs Hf Hlen Hsz Hk.
+    pose proof (tie_crypt sgn langs st h pw d fuel (Dz (st_deps st)) Hg HC Hs Hf (Dz_zs _ pw) Hlen Hsz Hk) as T.
+    pose proof (step_rest sgn st (OpCrypt h pw) eq_refl) as SR. cbv zeta in SR. unfold stp, evp, TraceProofs.stp, TraceProofs.evp in SR.
+    destruct (step sgn langs st (OpCrypt h pw)) as [[st' out] evs]. cbn [fst snd] in SR.
+    destruct T as (cevs & d2 & E & Ev & -> & Hh & Hn). rewrite E. subst evs.
+    rewrite SR. rewrite SR in Hn. cbn [st_next] in Hn. rewrite Hn, Hh.
+    unfold undata. rewrite !N2Z.id, map_toN_zN. destruct d2; reflexivity.
+  Qed.
+
+  Theorem cstep_encode st h li coin :
+    live_valid st h -> coin < 2048 ->
+    (forall L j, nth_error langs li = Some L -> (length (nth j (l_words L) []) + 1 <= fuel)%nat) ->
+    (forall L, nth_error langs li = Some L -> (length (l_separator L) + 1 <= fuel)%nat) ->
+    (forall x, snd (dp_nfc (st_deps st) x) < 2 ^ 64) ->
+    (* the phrase fits str_tmp (C17) and has no NUL *)
+    match snd (fst (step sgn langs st (OpEncode h li coin))) with OutStr o _ => no_nul o | OutFault => heap_get (st_heap st) h = None \/ nth_error langs li = None | _ => False end ->
+    cstep st (OpEncode h li coin) = step sgn langs st (OpEncode h li coin).
+  Proof.
+    unfold live_valid, cstep. cbv zeta. intros HV Hc Hfw Hfs Hnfc Hout.
+    destruct (heap_get (st_heap st) h) as [d|] eqn:Hg.
+    2:{ cbn [step]. rewrite Hg. reflexivity. }
+    destruct (nth_error langs li) as [L|] eqn:HL.
+    2:{ cbn [step]. rewrite Hg, HL. reflexivity. }
+    destruct HV as [HC Ek]. assert (K : d_checksum d < 2048) by (rewrite Ek; apply spec_checksum_lt).
+    pose proof (tie_encode sgn st fuel li L HL (fun j => Hfw L j eq_refl) (Hfs L eq_refl) Hnfc h d coin (repeat 0%Z 544) Hg HC K Hc
+                  ltac:(cbn; lia)) as T.
+    destruct (step sgn langs st (OpEncode h li coin)) as [[st' out] evs]. cbn [fst snd] in Hout.
+    destruct out; try contradiction.
+    - destruct Hout as [H|H]; congruence.
+    - destruct T as (cevs & rest & E & Ev & ->). rewrite E. subst evs.
+      rewrite (cstr_zs s (0%Z :: rest) Hout) by (right; eexists; reflexivity). rewrite bytes_of_zs, N2Z.id. reflexivity.
+  Qed.
+
   (* what a call must satisfy for the generated code to be run on it with this much fuel *)
   Definition op_ready (st : state) (o : op) : Prop :=
     match o with
@@ -208,16 +341,32 @@ Section Machine.
     | OpDecodeExplicit str coin li _ =>
         (exists L, nth_error langs li = Some L) /\ no_nul str /\ coin < 2048 /\ (length str + 2 <= fuel)%nat /\
         no_nul (fst (dp_nfkd (st_deps st) str)) /\ (length (fst (dp_nfkd (st_deps st) str)) + 2 <= fuel)%nat
-    | _ => True
+    | OpFree h | OpStore h | OpGetBirthday h | OpGetFeature h _ | OpIsEncrypted h => live_valid st h
+    | OpKeygen h coin _ => live_valid st h /\ coin < 2 ^ 32
+    | OpEnable mask => mask < 2 ^ 32
+    | OpCrypt h pw =>
+        live_valid st h /\ no_nul pw /\ (length pw + 2 <= fuel)%nat /\
+        snd (dp_nfkd (st_deps st) pw) = N.of_nat (length (fst (dp_nfkd (st_deps st) pw))) /\ snd (dp_nfkd (st_deps st) pw) < 2 ^ 64 /\
+        (forall p n salt sl it kl, bytes_ok (dp_kdf (st_deps st) p n salt sl it kl))
+    | OpEncode h li coin =>
+        live_valid st h /\ coin < 2048 /\
+        (forall L j, nth_error langs li = Some L -> (length (nth j (l_words L) []) + 1 <= fuel)%nat) /\
+        (forall L, nth_error langs li = Some L -> (length (l_separator L) + 1 <= fuel)%nat) /\
+        (forall x, snd (dp_nfc (st_deps st) x) < 2 ^ 64) /\
+        match snd (fst (step sgn langs st (OpEncode h li coin))) with
+        | OutStr o _ => no_nul o | OutFault => heap_get (st_heap st) h = None \/ nth_error langs li = None | _ => False end
+    | _ => True     (* OpInject: the mirror's own step (polyseed_inject is tied separately, CTieInject) *)
     end.
 
   Theorem cstep_ok st o : op_ready st o -> cstep st o = step sgn langs st o.
   Proof.
-    destruct o; cbn [op_ready]; intros H; try reflexivity.
+    destruct o; cbn [op_ready]; intros H; try reflexivity; try (apply cstep_simple; exact H).
     - destruct H. apply cstep_create; assumption.
     - destruct H. apply cstep_load; assumption.
     - destruct H as (?&?&?&?&?). apply cstep_decode; assumption.
     - destruct H as ((L&HL)&?&?&?&?&?). apply (cstep_decode_explicit st str coin li L); assumption.
+    - destruct H as (?&?&?&?&?&?). apply cstep_encode; assumption.
+    - destruct H as (?&?&?&?&?&?). apply cstep_crypt; assumption.
   Qed.
 
   (* a whole history *)
@@ -241,5 +390,14 @@ Section Machine.
     revert st. induction ops as [|o ops IH]; intros st H; [reflexivity|].
     cbn [crun run Ready] in *. destruct H as [H1 H2]. rewrite (cstep_ok st o H1).
     destruct (step sgn langs st o) as [[st1 out1] ev1]. cbn [fst] in H2. rewrite (IH st1 H2). reflexivity.
+  Qed.
+
+  (* with C13_refinement: any history of calls of the TRANSLATED code gives, call by call, the outputs of the abstract
+     seed machine (a seed is secret, birthday, features), and ends in a related state *)
+  Theorem code_refinement ops : forall cs a, R cs a -> Forall op_ok ops -> Ready cs ops ->
+    map fst (snd (crun cs ops)) = snd (arun langs a ops) /\
+    R (fst (crun cs ops)) (fst (arun langs a ops)).
+  Proof.
+    intros cs a HR Hok Hr. rewrite (crun_run cs ops Hr). apply run_refines; assumption.
   Qed.
 End Machine.
